@@ -4,6 +4,7 @@ import LiteFSVerif.Driver.CodecD
 import LiteFSVerif.Driver.EngineD
 import LiteFSVerif.Driver.ClusterD
 import LiteFSVerif.Driver.ProxyD
+import LiteFSVerif.Driver.ApiD
 
 open LiteFSVerif LiteFSVerif.Driver
 
@@ -20,6 +21,7 @@ def main (args : List String) : IO UInt32 := do
   | ["replica"] => loop stdin stdout EngineD.step {}; return 0
   | ["cluster"] => loop stdin stdout ClusterD.step {}; return 0
   | ["proxy"] => loop stdin stdout ProxyD.step {}; return 0
+  | ["api"] => loop stdin stdout ApiD.step {}; return 0
   | ["codec"] => loop stdin stdout Codec.stepModel (); return 0
   | _ =>
     IO.eprintln "usage: modeld <suite>"
